@@ -17,11 +17,12 @@ RULE = ("scenario = hive dataset {unpartitioned, partitioned on 1 column, on 2 c
         "appended frame producing 1 / 2 / 4 new row groups x {first append, second append}; fault points = every "
         "write-side call (mkdirs, open for writing, write, close) before the first call that opens _metadata for "
         "writing, each with variants {OSError, torn write (first half written, then OSError), crash (process "
-        "abandoned)}; oracle: if the append raised or was abandoned a fresh ParquetFile(dir) reads exactly the old "
+        "abandoned), sticky (this and every later write-side call fail: a full disk)}; thorough adds deviation bound "
+        "2: for every first fault, every second failing call among those the library still issues afterwards; oracle: if the append raised or was abandoned a fresh ParquetFile(dir) reads exactly the old "
         "content; if it returned normally exactly the new content; no pre-existing data file is opened in a "
         "writing mode or changed; non-trivial = a fault point at which the append had already issued >= 1 "
         "write-side call")
-ASSUMPTIONS = ["one failing call per execution", "faults are injected on write-side calls only (reads pass through)",
+ASSUMPTIONS = ["one failing call per execution (quick), up to two or a failing suffix (sticky)", "faults are injected on write-side calls only (reads pass through)",
                "crash = os._exit at the call, on tmpfs (no reordering of completed writes)"]
 
 
@@ -31,7 +32,7 @@ def points(tier):
         for existing in (1, 3):
             for newrgs in (1, 2, 4):
                 for second in (False, True):
-                    pts.append({"parts": parts, "existing": existing, "newrgs": newrgs, "second": second})
+                    pts.append({"parts": parts, "existing": existing, "newrgs": newrgs, "second": second, "tier": tier})
     return pts
 
 
@@ -52,15 +53,18 @@ class Env:
 
     def __init__(self, fail_at=None, variant="error"):
         self.calls = []
-        self.fail_at = fail_at
+        self.fail_at = set() if fail_at is None else ({fail_at} if isinstance(fail_at, int) else set(fail_at))
         self.variant = variant
         self.fired = False
+        self.nfired = 0
 
     def _point(self, kind, path, data=None):
         k = len(self.calls)
         self.calls.append((kind, path))
-        if self.fail_at is not None and k == self.fail_at and not self.fired:
+        # "sticky": from the first fault on every write-side call fails (a full disk)
+        if k in self.fail_at or (self.variant == "sticky" and self.fired):
             self.fired = True
+            self.nfired += 1
             if self.variant == "crash":
                 os._exit(77)
             return True
@@ -188,6 +192,26 @@ def run(p):
             if not detail[0]:
                 detail[0] = msg
 
+    def judge(what, outcome, kind, variant, k):
+        try:
+            got = content(work)
+        except Exception as e:
+            bad("dataset_unreadable", "%s: append %s; afterwards the dataset cannot be read: %s: %s" % (
+                what, outcome, type(e).__name__, str(e)[:100]), kind=kind.split(":")[0], variant=variant, outcome=outcome)
+            return
+        want = new if outcome == "returned" else old
+        if got != want:
+            bad("wrong_content", "%s: append %s; a fresh open reads %d rows %s, expected the %s content (%d rows)" % (
+                what, outcome, len(got), "" if len(got) > 12 else got, "new" if outcome == "returned" else "old", len(want)),
+                kind=kind.split(":")[0], variant=variant, outcome=outcome, rg_of_fault="first" if _first_rg(calls, k) else "later")
+        after = snapshot(work)
+        for rel, h in old_files.items():
+            if os.path.basename(rel) in ("_metadata", "_common_metadata"):
+                continue
+            if after.get(rel) != h:
+                bad("existing_file_changed", "%s: pre-existing data file %s was %s" % (
+                    what, rel, "removed" if rel not in after else "modified"), variant=variant)
+
     # the append never opens an existing data file for writing
     for kind, path in calls:
         rel = os.path.relpath(path, work)
@@ -195,8 +219,44 @@ def run(p):
             bad("existing_file_opened_for_writing", "fault-free append opened existing data file %s with %s" % (rel, kind))
     for k in range(limit):
         kind, cpath = calls[k]
-        variants = ["error", "crash"] + (["torn"] if kind == "write" else [])
+        variants = ["error", "crash", "sticky"] + (["torn"] if kind == "write" else [])
+        if p.get("tier") == "thorough":
+            variants.append("pairs")
         for variant in variants:
+            if variant == "pairs":
+                # deviation bound 2: a second failing call among those the library still issues after the first
+                # fault (clean-up closes, further part files), before any write to the summary files
+                shutil.rmtree(work, ignore_errors=True)
+                shutil.copytree(master, work)
+                e1 = Env(k, "error")
+                try:
+                    do_append(work, e1)
+                except Exception:
+                    pass
+                seq = list(e1.calls)
+                stop = len(seq)
+                for i2, (kind2, path2) in enumerate(seq):
+                    if kind2.startswith("open") and os.path.basename(path2) in ("_metadata", "_common_metadata"):
+                        stop = i2
+                        break
+                for j in range(k + 1, stop):
+                    faults += 1
+                    nontriv += 1
+                    shutil.rmtree(work, ignore_errors=True)
+                    shutil.copytree(master, work)
+                    what = "parts=%d existing=%d new=%d second=%s: calls %d and %d (%s, then %s %s) fail" % (
+                        parts, existing, newrgs, second, k, j, kind, seq[j][0], os.path.relpath(seq[j][1], work))
+                    e2 = Env({k, j}, "error")
+                    try:
+                        do_append(work, e2)
+                        outcome = "returned"
+                    except Exception:
+                        outcome = "raised"
+                    if e2.nfired < 2:
+                        bad("nondeterministic_call_sequence", "%s: the second fault point was not reached on replay" % what)
+                        continue
+                    judge(what, outcome, kind, "pairs", k)
+                continue
             faults += 1
             if k > 0:
                 nontriv += 1
@@ -226,24 +286,7 @@ def run(p):
                 if not e2.fired:
                     bad("nondeterministic_call_sequence", "%s: the fault point was not reached on replay" % what)
                     continue
-            try:
-                got = content(work)
-            except Exception as e:
-                bad("dataset_unreadable", "%s: append %s; afterwards the dataset cannot be read: %s: %s" % (
-                    what, outcome, type(e).__name__, str(e)[:100]), kind=kind.split(":")[0], variant=variant, outcome=outcome)
-                continue
-            want = new if outcome == "returned" else old
-            if got != want:
-                bad("wrong_content", "%s: append %s; a fresh open reads %d rows %s, expected the %s content (%d rows)" % (
-                    what, outcome, len(got), "" if len(got) > 12 else got, "new" if outcome == "returned" else "old", len(want)),
-                    kind=kind.split(":")[0], variant=variant, outcome=outcome, rg_of_fault="first" if _first_rg(calls, k) else "later")
-            after = snapshot(work)
-            for rel, h in old_files.items():
-                if os.path.basename(rel) in ("_metadata", "_common_metadata"):
-                    continue
-                if after.get(rel) != h:
-                    bad("existing_file_changed", "%s: pre-existing data file %s was %s" % (
-                        what, rel, "removed" if rel not in after else "modified"), variant=variant)
+            judge(what, outcome, kind, variant, k)
     ok = not sigs
     return {"ok": ok, "outcome": "intact" if ok else "damaged", "nontrivial": nontriv > 0,
             "counts": {"fault_points": faults, "calls_before_metadata": limit, "calls_total": len(calls)},
